@@ -1,0 +1,14 @@
+//go:build verif
+
+// Contracts for govc (/verif): C08 — point validity as an uninterpreted predicate of the 32 key bytes. Comment-only file.
+
+package crypto
+
+//@ -- ASSUMED: CheckKey is a function of the key bytes only (decodePoint has no state) and writes nothing.
+//@ -- As a `pure` function without a definition it is an uninterpreted predicate in specs: `k.CheckKey()` reads "k is a valid curve point".
+//@ -- (Key).CheckKey: assumed pure contract in zz_contracts_c05_verif.go (result <==> ValidPoint(k))
+
+//@ -- ASSUMED: signing reads the key and the hash, writes nothing visible (may panic on a non-canonical private key: not a parsing concern).
+//@ assume func (privateKey *Key) Sign
+//@   requires privateKey != nil
+//@   modifies nothing
